@@ -15,11 +15,43 @@ Inductive c09case :=
    4 = Header() returned the metadata that had arrived before the failure *)
 | C09Err (variant prefix : Z) (results : list Z).
 
+(* ---- the model's prediction for the C09Err scenario (it is the same for every error VALUE: the model is
+   parametric in it) ---- *)
+Definition err_msg (i : Z) : env := mkEnv 1 (Some (MdOk 0)) None (Some (100 + i)) None false.
+
+Fixpoint err_prefix (n : nat) (i : Z) : list act :=
+  match n with O => [] | S m => ADeliver (err_msg i) :: ARecv 0 false :: err_prefix m (i + 1) end.
+
+Definition err_acts (prefix : nat) : list act :=
+  [ANewStream false; ANewUnary 7 false] ++ err_prefix prefix 0 ++
+  [AFailRead; ARecv 0 false; ARecv 0 false; AHeader 0; ANewUnary 8 false; ANewStream false; ARecv 3 false].
+
+Definition recv_code (r : rres) : Z := match r with RMsg _ => 0 | RErr EEof => 1 | RErr _ => 2 end.
+
+(* result codes of: RecvMsg, RecvMsg, Header on the stream; the unary call in flight; Invoke after; NewStream(+RecvMsg) after *)
+Definition err_model_codes (prefix : nat) : list Z :=
+  let s := run (err_acts prefix) in
+  let recvs := flat_map (fun ev => match ev with EvRecvRet 0%nat r => [recv_code r] | _ => [] end) (log s) in
+  let after := skipn prefix recvs in
+  let nth_or3 (l : list Z) (n : nat) := nth n l 3 in
+  let hdr := match flat_map (fun ev => match ev with EvHeaderRet 0%nat v => [match v with inl _ => if Nat.eqb prefix 0 then 0 else 4 | inr _ => 2 end] | _ => [] end) (log s) with
+             | x :: _ => x | [] => 3 end in
+  let unary (c : nat) := match flat_map (fun ev => match ev with EvUnaryRet c' r => if Nat.eqb c' c then [match r with UOk _ => 0 | UErr _ => 2 end] else [] | _ => [] end) (log s) with
+                         | x :: _ => x | [] => 3 end in
+  let opened := match flat_map (fun ev => match ev with EvOpenRet 3%nat r => [r] | _ => [] end) (log s) with
+                | Some _ :: _ => 2
+                | None :: _ => match flat_map (fun ev => match ev with EvRecvRet 3%nat r => [recv_code r] | _ => [] end) (log s) with x :: _ => x | [] => 3 end
+                | [] => 3
+                end in
+  [nth_or3 after 0%nat; nth_or3 after 1%nat; hdr; unary 1%nat; unary 2%nat; opened].
+
 Definition check_c09 (c : c09case) : list nat :=
   match c with
   | C09Step cc => (if agrees cc then [] else [1%nat]) ++ reasons_in [3; 5; 6; 7; 8]%nat cc
   | C09Storm n pending succ => (if pending =? 0 then [] else [6%nat]) ++ (if succ =? 0 then [] else [5%nat])
-  | C09Err _ _ results =>
+  | C09Err _ prefix results =>
+      (* reason 1: for every error value the real client's results equal the model's (value-independence) *)
+      (if list_eqb Z.eqb results (err_model_codes (Z.to_nat prefix)) then [] else [1%nat]) ++
       (if existsb (fun r => (r =? 0) || (r =? 1)) results then [5%nat] else []) ++
       (if existsb (fun r => r =? 3) results then [6%nat] else [])
   end.
